@@ -111,7 +111,46 @@ def c03(tier):
     return rep
 
 
+def c08(tier):
+    from . import props_gen
+    rep = Report('C08', tier,
+                 'Pairing rules over the two breakpoint tables in gen.cpp: insertion uses one position expression and one '
+                 'location for both tables and the emitted instruction; removal is exact (element-wise); who-may-write over '
+                 'all generator functions; hidden-file constant agreement between gen.cpp and parse.cpp; locations are '
+                 'copied pairwise from token positions. Inverse-ness of the tables for every compiled program follows by '
+                 'induction over emissions.',
+                 assumptions=['token positions are assigned by the scanner (C14.L6)'], trusted=TRUSTED)
+    props_gen.c08(rep, tier)
+    return rep
+
+
+def c16(tier):
+    from . import props_gen
+    rep = Report('C16', tier,
+                 'Who-may-write on the routine table plus dominance in dispatchProgram (registration after body and RET) give '
+                 'an acyclic call graph for every accepted source; the LOOP lowering is checked as a dominance chain with a '
+                 'private, unnameable, per-loop-unique counter that only the decrement writes. Halting of LOOP programs '
+                 'follows by induction; it is not separately executed or simulated.',
+                 assumptions=['identifiers cannot contain the characters used in the counter name (C14)'], trusted=TRUSTED)
+    props_gen.c16(rep, tier)
+    return rep
+
+
+def c07(tier):
+    from . import props_gen
+    rep = Report('C07', tier,
+                 'PARTIAL: decides the emission discipline that stepping traces depend on (sites only via advanceLine after '
+                 'the location moved, advanceLine before any emission in both dispatchers, hidden file constant, labels '
+                 'resolve to the site just emitted, header site removed, END marks kept, stack map = non-temporary registers). '
+                 'The exact stop sequence of arbitrary programs is NOT decided.',
+                 assumptions=['C08 (tables consistent)', 'C01.a (handlers)'], trusted=TRUSTED)
+    props_gen.c07(rep, tier)
+    return rep
+
+
 CHECKS = {
+    'C16': c16, 'C07': c07,
+    'C08': c08,
     'C03': c03,
     'C19': c19, 'C20': c20, 'C17': c17, 'C05': c05, 'C06': c06,
 }
